@@ -811,6 +811,8 @@ func (self *PathNode) handleChild(in *[]PathNode, lp *int, cp *int, p *thrift.Bi
 	}
 	v := &con[l]
 	l += 1
+	// a reused slot must not keep the children of a previous load (Marshal writes a node from its children if it has any)
+	v.Next = v.Next[:0]
 
 	ss := p.Read
 	buf := p.Buf
